@@ -16,7 +16,7 @@ Definition msg_ext (a b : list (nat * pmsg)) : Prop :=
 Definition bounded (st : pst) : Prop := forall mid m, lookup mid (msgs st) = Some m -> (mid < next_mid st)%nat.
 
 Definition frag_known (st : pst) (f : fragref) : Prop :=
-  match f with FProbe => True | FReq mid _ => exists m, lookup mid (msgs st) = Some m end.
+  match f with FProbe _ => True | FReq mid _ => exists m, lookup mid (msgs st) = Some m end.
 
 Definition entry_ok (st : pst) (e : fragref * bytes) : Prop := frag_known st (fst e) /\ snd e = frag_req st (fst e).
 
@@ -336,7 +336,7 @@ Proof.
 Qed.
 
 (* ---- replies ---- *)
-Lemma on_moved_winv st f mid addr : WInv st -> frag_known st f -> WInv (on_moved st f mid addr).
+Lemma on_moved_winv st f mid ty addr : WInv st -> frag_known st f -> WInv (on_moved st f mid ty addr).
 Proof.
   intros H Hf. unfold on_moved.
   assert (Hm : WInv (mark_moved st mid (frag_slot f))) by (eapply WInv_wext; [apply wext_mark_moved | exact H]).
@@ -345,7 +345,12 @@ Proof.
   set (stm := mark_moved st mid (frag_slot f)) in *.
   destruct (find_pool stm addr) as [p|].
   - destruct (pool_get stm p) as [st1 [s|]] eqn:Eg; destruct (pool_get_winv _ _ _ _ Hm Eg) as (A & B & C).
-    + apply enqueue_out_winv; [exact A|]. destruct f as [|m0 s0]; cbn [frag_known] in *; [exact I | rewrite B; exact Hfm].
+    + set (st2 := if N.eqb ty RspAsk then enqueue_out st1 s (FProbe true) else st1).
+      assert (A2 : WInv st2 /\ msgs st2 = msgs st1).
+      { unfold st2. destruct (N.eqb ty RspAsk); [|split; [exact A | reflexivity]].
+        split; [apply enqueue_out_winv; [exact A | exact I] | apply (same_cm_enqueue_out st1 s (FProbe true))]. }
+      destruct A2 as [A2 M2].
+      apply enqueue_out_winv; [exact A2|]. destruct f as [|m0 s0]; cbn [frag_known] in *; [exact I | rewrite M2, B; exact Hfm].
     + eapply WInv_wext; [apply wext_fail_and_flush | exact A].
   - eapply WInv_wext; [apply wext_fail_and_flush | exact Hm].
 Qed.
@@ -538,7 +543,7 @@ Proof.
     + destruct (pool_get stm p) as [st1 r] eqn:Eg.
       pose proof (same_cm_pool_get stm p) as Hcm. rewrite Eg in Hcm. cbn [fst] in Hcm.
       destruct r as [s2|].
-      * apply frame_same_cm. eapply same_cm_trans; [exact Hcm | apply same_cm_enqueue_out].
+      * apply frame_same_cm. eapply same_cm_trans; [exact Hcm | eapply same_cm_trans; [apply same_cm_asking | apply same_cm_enqueue_out]].
       * eapply frame_trans; [apply frame_same_cm, Hcm|]. rewrite <- Hc1. apply frame_fail_and_flush.
         destruct Hcm as (_ & Em & _). rewrite Em. exact Hm1.
     + rewrite <- Hc1. apply frame_fail_and_flush, Hm1.
@@ -565,7 +570,7 @@ Theorem wire_identity c pools slots evs st s sv :
   (ps_taken sv <= length (ps_written sv))%nat /\
   (* every recorded request is the request of its fragment, and that fragment's request exists *)
   Forall (fun e => match fst e with
-                   | FProbe => snd e = ReqClusterNodes
+                   | FProbe a => snd e = if a then ReqAsking else ReqClusterNodes
                    | FReq mid slot => exists m, lookup mid (msgs st) = Some m /\ snd e = frag_req st (FReq mid slot)
                    end) (ps_written sv).
 Proof.
